@@ -7,6 +7,8 @@ import (
 	"bytes"
 	"encoding/hex"
 	"testing"
+	"testing/synctest"
+	"time"
 
 	modbus "github.com/aldas/go-modbus-client"
 	"github.com/aldas/go-modbus-client/packet"
@@ -194,5 +196,47 @@ func TestSelfRefDecode(t *testing.T) {
 	}
 	if got := RefDecodeRegs([]uint16{0x80FF}, modbus.Field{Type: modbus.FieldTypeInt8, FromHighByte: true}); got != int8(-128) {
 		t.Errorf("int8 high: %v", got)
+	}
+}
+
+// The case the thorough soak met once (seed 23): junk whose first read is length-consistent for function 3 is returned
+// as a successful read-holding-registers response to a write-multiple-registers request. It must be reported under the
+// signature that known_findings.json lists, and a frame that does carry the request's header must not get that suffix.
+func TestSelfC08UnrelatedFrameSignature(t *testing.T) {
+	junk := make([]byte, 262)
+	j8 := []byte{0x95, 0x00, 0x00, 0x00, 0x00, 0x00, 0x00, 0x04}
+	for i := range junk {
+		junk[i] = j8[i%8] ^ byte(i)
+	}
+	junk[7], junk[8] = 0x03, 157
+	run := func(reply []byte, chunks []Chunk) []Violation {
+		var vs []Violation
+		synctest.Test(t, func(t *testing.T) {
+			req := Req{FC: 16, Addr: 0, Regs: make([]byte, 12)}
+			lr, err := BuildLibRequest(req, 1, 1, TCP)
+			if err != nil {
+				t.Fatal(err)
+			}
+			full := FrameTCP(1, 1, []byte{16, 0, 0, 0, 6})
+			sc := &C1{Kind: KTCP, Req: req, Unit: 1, TID: 1, LibReq: lr, Fault: FOversize, Reply: reply, Full: full, Chunks: chunks,
+				ReadTimeout: 20 * time.Millisecond, WriteTimeout: time.Second}
+			rc := &RunCtx{Prop: "C08", Tier: "quick", Scen: ReplayTape(nil), Sched: ReplayTape(nil)}
+			out := RunC1(rc, sc)
+			checkC08(rc, sc, out)
+			vs = rc.Violations
+		})
+		return vs
+	}
+	vs := run(junk, []Chunk{{N: 166}, {N: 96}})
+	if len(vs) != 1 || vs[0].Sig != "C08|success_under_fault|client=tcp|fault=oversize|resp=*packet.ReadHoldingRegistersResponseTCP|frame_unrelated_to_request" {
+		t.Fatalf("unexpected: %+v", vs)
+	}
+	// a frame that carries the request's header is not "unrelated"; a complete genuine reply ahead of the flood is no violation
+	sc := &C1{Kind: KTCP, Req: Req{FC: 16}, Unit: 1, TID: 1}
+	if !frameAnswersRequest(sc, []byte{0, 1, 0, 0, 0, 6, 1, 16, 0, 0, 0, 6}) || !frameAnswersRequest(sc, []byte{0, 1, 0, 0, 0, 3, 1, 0x90, 2}) || frameAnswersRequest(sc, junk) {
+		t.Fatal("frameAnswersRequest")
+	}
+	if vs := run(append(FrameTCP(1, 1, []byte{16, 0, 0, 0, 6}), junk...), []Chunk{{N: 12}, {N: 262}}); len(vs) != 0 {
+		t.Fatalf("unexpected: %+v", vs)
 	}
 }
